@@ -78,10 +78,19 @@ def vectors(ctx):
                 V.append({"fn": "uplink.uplink_icao", "frame": uplink_frame(data, a), "case": ["a", a, n, pat], "cs": rng.choice([0, 1])})
     # address sweep: the recovered address is a function of the AP field alone once the data are fixed - many addresses, one
     # short frame each (a defect confined to a small set of addresses, e.g. one table entry, is only met by breadth)
-    for _ in range(ctx.pick(40000, 2000000)):
+    for _ in range(ctx.pick(20000, 2000000)):
         a = rng.randrange(1 << 24)
         data = [rng.randrange(256) for _ in range(4)]
         V.append({"fn": "uplink.uplink_icao", "frame": uplink_frame(data, a), "case": ["sweep", a], "cs": 0})
+    # ... and by structure: for a FIXED data part the AP field runs through every value of its low 16 bits and of its high 16
+    # bits (any 24 bits are the AP of some address; the address is a linear bijective image of the AP field, so every 16-bit
+    # half of every linear intermediate a table-driven implementation might index takes every value)
+    for rep in range(ctx.pick(1, 4)):
+        data = [rng.randrange(256) for _ in range(4)]
+        for x in range(65536):
+            V.append({"fn": "uplink.uplink_icao", "frame": data + [rng.randrange(256), x >> 8, x & 255], "case": ["aplo", rep, x], "cs": 0})
+            if x % 2 == rep % 2:
+                V.append({"fn": "uplink.uplink_icao", "frame": data + [x >> 8, x & 255, rng.randrange(256)], "case": ["aphi", rep, x], "cs": 0})
     for _ in range(ctx.pick(2000, 100000)):
         f = gen.rand_frame(rng)
         V.append({"fn": rng.choice(["uplink.uplink_icao", "uplink.uf", "uplink.uplink_fields", "uplink.ic"]), "frame": f,
